@@ -9,7 +9,7 @@
     $PYPYR_CONFIG_GLOBAL alone or the user file followed by the common directories in
     listed order (last-listed lowest).  [first_setting says l] is what the first
     (= highest-precedence) payload of [l] that says anything says. *)
-From PV Require Import Config ConfigProofs.
+From PV Require Import Config ConfigProofs GenC20 GenC20Proofs.
 Open Scope string_scope.
 
 (** Each scalar setting = the value in the highest-precedence file that sets it, else
@@ -169,6 +169,58 @@ Theorem C20_skip_init : forall e fs c,
   /\ c_loaded (with_skip c) = c_loaded c.
 Proof. intros; split; [apply init_skip; assumption|repeat split]. Qed.
 Print Assumptions C20_skip_init.
+
+(** * Tie B: the model is what the current source says.
+    [gen_*] (Gen/GenC20.v) are regenerated from pypyr/config.py and pypyr/platform.py before
+    every build; [model_prims fs] supplies the model's file reads and attribute updates for the
+    primitives the translator leaves abstract; [lift] forgets the unit result. *)
+
+(** [Config.all_writable_props], [dict_props], [scalar_props] *)
+Theorem C20_source_props_is_model :
+  gen_scalar_props = scalar_props /\ gen_dict_props = dict_props
+  /\ forall k, match k with VStr x => str_in x gen_all_writable_props | _ => false end = is_known k.
+Proof. exact (conj gen_scalar_props_is_model (conj gen_dict_props_is_model gen_all_writable_props_is_model)). Qed.
+Print Assumptions C20_source_props_is_model.
+
+(** [Config.update]: unknown keys rejected, dict props key-wise updated, scalars overwritten *)
+Theorem C20_source_update_is_model : forall fs d c,
+  gen_update (model_prims fs) (VDict d) c = lift (update c d).
+Proof. exact gen_update_is_model. Qed.
+Print Assumptions C20_source_update_is_model.
+
+(** [Config.load_yaml], [Config.load_pyproject_toml] *)
+Theorem C20_source_load_yaml_is_model : forall fs path raise c,
+  gen_load_yaml (model_prims fs) path raise c = with_ok (load_yaml fs path raise) c.
+Proof. exact gen_load_yaml_is_model. Qed.
+Print Assumptions C20_source_load_yaml_is_model.
+
+Theorem C20_source_load_pyproject_toml_is_model : forall fs path c,
+  gen_load_pyproject_toml (model_prims fs) path false c = load_pyproject fs c path.
+Proof. exact gen_load_pyproject_toml_is_model. Qed.
+Print Assumptions C20_source_load_pyproject_toml_is_model.
+
+(** [Config.handle_path]: which payloads are skipped, rejected, merged and listed *)
+Theorem C20_source_handle_path_is_model : forall fs path c,
+  (forall raise, gen_handle_path (model_prims fs) path None raise c = lift (handle_yaml fs c path raise))
+  /\ gen_handle_path (model_prims fs) path (Some (gen_load_pyproject_toml (model_prims fs))) false c
+     = lift (handle_pyproject fs c path).
+Proof.
+  exact (fun fs path c => conj (fun raise => gen_handle_path_yaml_is_model fs path raise c)
+                               (gen_handle_path_pyproject_is_model fs path c)).
+Qed.
+Print Assumptions C20_source_handle_path_is_model.
+
+(** the XDG rules of pypyr.platform: user file and common files, in listed order *)
+Theorem C20_source_platform_paths_is_model : forall e,
+  gen_get_platform_paths e "pypyr" "config.yaml" = (user_path e, common_paths e).
+Proof. exact gen_get_platform_paths_is_model. Qed.
+Print Assumptions C20_source_platform_paths_is_model.
+
+(** [Config.init]: skip, global override, and the ORDER of the locations *)
+Theorem C20_source_init_is_model : forall fs e c,
+  gen_init (model_prims fs) e c = lift (init e fs c).
+Proof. exact gen_init_is_model. Qed.
+Print Assumptions C20_source_init_is_model.
 
 (** * Non-vacuity: concrete file sets run through [init] (evaluated) *)
 Definition y (l : list (string * val)) : val := VDict (map (fun kv => (VStr (fst kv), snd kv)) l).
